@@ -52,8 +52,6 @@ contract(N + 'get_next_tag', params=dict(el=NODE), returns=NODE, requires=['el i
 # generators over children / descendants: contracts assumed here (validated by the bounded tier), see props
 contract(N + 'get_tag_children', params=dict(self=CSSMATCH, el=NODE, start=TOpt(INT), reverse=BOOL, no_iframe=BOOL), returns=SEQ_NODE,
          ensures=['result == kids_spec(self, el, start, reverse, True, no_iframe)'], properties=['C01'])
-contract(N + 'get_tag_descendants', params=dict(self=CSSMATCH, el=NODE, no_iframe=BOOL), returns=SEQ_NODE,
-         kind='generator', ensures=['result == tag_desc(self, el, no_iframe)'], opaque=True, properties=['C01', 'C03'])
 
 contract(N + 'normalize_value', params=dict(value=RAW), returns=ATTRVAL, ensures=['result == norm(value)'], opaque=True, properties=['C08'])
 contract(N + 'get_attribute_by_name', params=dict(el=NODE, name=STR, default=OPT_ATTRVAL), returns=OPT_ATTRVAL, requires=['el is not None'],
